@@ -400,6 +400,24 @@ theorem scoped_served_inside_scope (H : Hash) (store : Nat → Option Entry) (qi
       · simp only [hm, Bool.false_eq_true, if_false] at h
         exact fromShared e h
 
+/-- **Neighbouring subnets are isolated.** An entry filed for client X under a
+scope that names X's own network (the authority echoed X's forwarded prefix)
+is served to a client Y only if Y's forwarded prefix lies in that same network:
+X and Y agree on every one of the scope's bits.  For every hash and store. -/
+theorem neighbour_subnets_isolated (H : Hash) (store : Nat → Option Entry) (qid : Nat) (cd : Bool)
+    (cpX cpY : Prefix) (e : Entry) (sc : Prefix)
+    (hsc : e.scope = some sc) (hX : sc.addr = maskTo cpX.fam.width sc.bits cpX.addr) (hfX : sc.fam = cpX.fam)
+    (h : serveLookup H store qid cd (some cpY) = some e) :
+    cpY.fam = cpX.fam ∧ sc.bits ≤ cpY.bits ∧
+    maskTo cpX.fam.width sc.bits cpY.addr = maskTo cpX.fam.width sc.bits cpX.addr := by
+  obtain ⟨_, _, h3⟩ := scoped_served_inside_scope H store qid cd (some cpY) e h
+  obtain ⟨cp, hcp, hf, _, hle, _, ha⟩ := h3 sc hsc
+  simp only [Option.some.injEq] at hcp
+  rw [← hcp] at hf hle ha
+  have hfam : cpY.fam = cpX.fam := by rw [← hf, hfX]
+  refine ⟨hfam, hle, ?_⟩
+  rw [← hX, ha, hfam]
+
 /-- a request for which no client scope was derived (policy off or invalid,
 client outside the allowed networks, no usable subnet option) never receives
 a scoped entry. -/
@@ -896,6 +914,9 @@ example : (runCache demoH (some demoPol) 300 demoOps).map (fun x => (x.2.ans, x.
     [(45, 86400, false), (42, 300, true)] := by decide
 example : serveLookup demoH (runCache demoH (some demoPol) 300 demoOps).get 7 false (some ⟨.v4, 0x0a01e000, 19⟩)
     = some ⟨7, false, some ⟨.v4, 0x0a01e000, 19⟩, 300, 42⟩ := by decide
+-- the neighbour across the /19 boundary does not get X's entry; a host inside the same /19 does
+example : serveLookup demoH demoStore 7 false (some ⟨.v4, 0x0a01f000, 20⟩) = some demoEntry ∧
+    maskTo 32 19 0x0a01f000 = maskTo 32 19 0x0a01e000 := by decide
 -- an ECS client whose option was stripped by policy still bypasses, two chases deep
 example : consultsCut (descend (rootView true false false false) [(false, false, false), (false, false, false)]) = false := by decide
 example : consultsCut (rootView false false false false) = true := by decide
